@@ -139,7 +139,7 @@ func newConn(h *Handler, s *xmpp.Session, iq openIQ, recv bool, maxBufSize int) 
 
 	return &Conn{
 		readBuf:        bytes.NewBuffer(make([]byte, 0, blockSize)),
-		readReady:      make(chan struct{}),
+		readReady:      make(chan struct{}, 1),
 		s:              s,
 		writeBuf:       bufio.NewWriterSize(b64Writer, int(blockSize)),
 		closeFlushFunc: b64Writer.Close,
@@ -175,11 +175,17 @@ func (c *Conn) Read(b []byte) (n int, err error) {
 	// In this case wait for a signal that there is more data to read.
 	// When the connection is closed this same signal is sent and our final read
 	// from the empty buffer will result in 0, io.EOF as expected.
-	if c.readBuf.Len() == 0 {
+	// The signal is buffered, so one that is sent between the check and the wait
+	// is not lost, and one left over from data that has been read already only
+	// makes us check again.
+	for c.readBuf.Len() == 0 {
 		c.readLock.Unlock()
 		verifhook.Yield("ibb.read.wait")
-		<-c.readReady
+		_, open := <-c.readReady
 		c.readLock.Lock()
+		if !open {
+			break
+		}
 	}
 
 	return c.readBuf.Read(b)
